@@ -32,6 +32,7 @@ import ast
 from vf.pyvc.contracts import Contract, ClassContract, apply_contract, eval_single
 from vf.pyvc.interp import FuncV, Frame
 from vf.pyvc import loader
+from vf.pyvc.values import mk_int, zint
 from .sig_common import common_registry, add_rsa_key, OINT, HASH, OHASH, RSA, RANDFUNC
 
 P = 'Crypto.Signature.pss.'
@@ -154,6 +155,20 @@ def emsa_encode_contract(r=None):
                     modifies=[], opaque=[S + 'mgf1'])
 
 
+def model_emsa_encode(E, st, args, kwargs):
+    """call of _EMSA_PSS_ENCODE from another function under contract: the proved contract (general instance) minus its clause
+    `entropy`, whose content -- exactly one draw from the caller's tape on normal return, none when it raises (on_raise) -- is
+    applied to the ghost cursor here (a contract cannot assign ghost state at a call site)"""
+    c = emsa_encode_contract(None)
+    del c.ensures['entropy']
+    cur = st.ghost.get('rnd_cursor', 0)
+    outs = apply_contract(E, c, st, args, kwargs)
+    for o in outs:
+        if o[0] == 'val':
+            o[1].ghost['rnd_cursor'] = mk_int(zint(cur) + 1)
+    return outs
+
+
 # ---------------------------------------------------------------- RSASSA-PSS
 
 SCHEME = P + 'PSS_SigScheme'
@@ -191,19 +206,24 @@ def pss_verify_contract():
                     # and EMSA-PSS-VERIFY(M, EM, modBits - 1) == "consistent" (steps 3-4)
                     raises={'ValueError': ('iff', 'not (%s)' % accept)},
                     ensures={'none': 'result is None'},
-                    modifies=[], opaque=[S + 'mgf1', S + 'emsa_pss_ok'])
+                    modifies=[], opaque=[S + 'mgf1', S + 'emsa_pss_consistent'])
 
 
 def pss_sign_contract():
-    salt = 'rnd_tape(old(rnd_cursor()))'
-    H = S + 'emsa_pss_H(msg_hash.g_alg, %s, %s)' % (PSS_MHASH, salt)
-    em = S + 'emsa_pss_em(msg_hash.g_alg, %s, %s, %s, %s, %s)' % (PSS_HLEN, PSS_MHASH, PSS_EMBITS, salt, pss_mask(H))
+    def terms(salt):
+        H = S + 'emsa_pss_H(msg_hash.g_alg, %s, %s)' % (PSS_MHASH, salt)
+        em = S + 'emsa_pss_em(msg_hash.g_alg, %s, %s, %s, %s, %s)' % (PSS_HLEN, PSS_MHASH, PSS_EMBITS, salt, pss_mask(H))
+        sig = 'pow(be(%s), %s, %s)' % (em, KEY_D, KEY_N)                                 # 8.1.1 step 2b: s = RSASP1(K, OS2IP(EM))
+        return em, sig
     short = '%s < %s + %s + 2' % (PSS_EMLEN, PSS_HLEN, PSS_SLEN)                         # 9.1.1 step 3: "encoding error"
-    sig = 'pow(be(%s), %s, %s)' % (em, KEY_D, KEY_N)                                     # 8.1.1 step 2b: s = RSASP1(K, OS2IP(EM))
-    fault = 'be(%s) != pow(%s, %s, %s)' % (em, sig, KEY_E, KEY_N)                        # the library's fault check
+    # `raises` conditions are evaluated in the entry state: the salt is the next draw of the caller's tape
+    em0, sig0 = terms('rnd_tape(rnd_cursor())')
+    fault = 'be(%s) != pow(%s, %s, %s)' % (em0, sig0, KEY_E, KEY_N)                      # the library's fault check
+    salt = 'rnd_tape(old(rnd_cursor()))'
+    em, sig = terms(salt)
     return Contract(SCHEME + '.sign', params={'msg_hash': OHASH},
-                    raises={'ValueError': ('iff', '%s or be(%s) >= %s or (hasattr(self._key, "_d") and %s)' % (short, em, KEY_N, fault)),
-                            'TypeError': ('iff', 'not hasattr(self._key, "_d") and not (%s) and be(%s) < %s' % (short, em, KEY_N))},
+                    raises={'ValueError': ('iff', '%s or be(%s) >= %s or (hasattr(self._key, "_d") and %s)' % (short, em0, KEY_N, fault)),
+                            'TypeError': ('iff', 'not hasattr(self._key, "_d") and not (%s) and be(%s) < %s' % (short, em0, KEY_N))},
                     result='bytes',
                     ensures={'rfc8017_8_1_1': 'result == i2osp(%s, %s)' % (sig, K),
                              'salt': 'len(%s) == %s' % (salt, PSS_SLEN),
@@ -219,6 +239,7 @@ def registry(r=None, lencase=None):
     add_mgf(reg)
     reg.add(emsa_verify_contract(r, lencase))
     reg.add(emsa_encode_contract(r))
+    reg.models[P + '_EMSA_PSS_ENCODE'] = model_emsa_encode
     add_scheme(reg)
     reg.add(pss_verify_contract())
     reg.add(pss_sign_contract())
